@@ -295,9 +295,12 @@ def shared_radial_edge_rule(prog, rep, topos):
                "unmodelled: %d definitions of contour_is_separatrix" % len(tests), key="shared-edge/separatrix-test")
         return
     v = inline_temporaries(sv, tests[0].value)
-    single = [mod.code(x) for x in ast.walk(v) if isinstance(x, ast.Subscript) and isinstance(x.value, ast.Attribute) and x.value.attr == "psi_sep" and isinstance(x.slice, (ast.Constant, ast.UnaryOp))]
-    over_all = any(isinstance(x, (ast.GeneratorExp, ast.ListComp)) and any(isinstance(g.iter, ast.Attribute) and g.iter.attr == "psi_sep" for g in x.generators) for x in ast.walk(v)) \
-        or any(isinstance(x, ast.Call) and mod.code(x.func) in ("numpy.any", "any", "numpy.isclose") and any(isinstance(y, ast.Attribute) and y.attr == "psi_sep" for y in ast.walk(x)) for x in ast.walk(v))
+    # every use of equilibrium.psi_sep in the test: subscripted (one element or a slice) or whole
+    single = [mod.code(x) for x in ast.walk(v) if isinstance(x, ast.Subscript) and isinstance(x.value, ast.Attribute) and x.value.attr == "psi_sep"]
+    whole = [x for x in ast.walk(v) if isinstance(x, ast.Attribute) and x.attr == "psi_sep"
+             and not any(isinstance(p_, ast.Subscript) and p_.value is x for p_ in ast.walk(v))]
+    over_all = bool(whole) and (any(isinstance(x, (ast.GeneratorExp, ast.ListComp)) and any(g.iter in whole for g in x.generators) for x in ast.walk(v))
+                                or any(isinstance(x, ast.Call) and mod.code(x.func) in ("numpy.any", "any", "numpy.isclose") and any(y in whole for y in ast.walk(x)) for x in ast.walk(v)))
     if single:
         ok, detail = False, "only %s is recognised as a separatrix; the tables put radial segment boundaries on %d separatrices (disconnected double null: psi_sep[0] and psi_sep[1]), so on the other one the two adjacent blocks use different one-sided direction vectors and place different points on the shared edge" % (", ".join(sorted(set(single))), max(nsep, 2))
     elif over_all:
